@@ -537,6 +537,11 @@ def do_extract(u, spec, subs, tline):
         d = sd['d']
         if d.startswith('t4 '):
             args = d.split()[1:]
+            if args[0] == 'split_or_guard':
+                text, n = t4mod.split_or_guard(text)
+                fn_counts['T4'] = fn_counts.get('T4', 0) + n
+                u.rewrites.append({'fn': ' :: '.join(path), 'file': relpath, 'kind': 'T4', 'what': 'split_or_guard: %d match arm(s) `C(A | B) if G` duplicated per alternative' % n})
+                continue
             if args[0] in ('for_slice', 'for_refs'):
                 # t4 for_slice <k> [adapter]   (elements bound by reference) / t4 for_refs <k> [adapter] (by value)
                 text, note = t4mod.for_indexed(text, int(args[1]), args[0] == 'for_slice', args[2] if len(args) > 2 else None)
